@@ -60,10 +60,17 @@ func c02Scenarios() []scOpt {
 		eds: []w.EDSOpt{w.WithRolling("1", "", 0, 0)}, first: []w.Event{evb("setTemplate", edsKey, selB)},
 		alpha: &w.Alpha{AddNodes: []string{"n9", "n8:k=a"}, PodDev: []string{"unready"}}, budget: b}
 	scs = append(scs, s8)
+	// S9: templates that tolerate not-ready:NoSchedule themselves; a node turns NotReady (both not-ready taints), another
+	// one may join: with the standard DaemonSet tolerations every such node stays eligible
+	const tnA, tnB = "A+tolnr", "B+tolnr"
+	s9 := scOpt{name: "S9-template-tolerates-not-ready-noschedule", nodes: n2, tpl0: tnA, tpls: []string{tnA, tnB},
+		eds: []w.EDSOpt{w.WithRolling("1", "", 0, 0)}, first: []w.Event{evb("setTemplate", edsKey, tnB)},
+		alpha: &w.Alpha{Taints: []string{"notready"}, AddNodes: []string{"n9"}}, budget: b}
+	scs = append(scs, s9)
 	if h.Thorough() {
 		scs[1] = corpusS2(n3, "1", 2, rolloutDev())
 		scs[4] = corpusS3(n3, "1", "auto", 2, canaryDev())
-		scs[len(scs)-2].budget = 2
+		scs[len(scs)-3].budget = 2
 		scs = append(scs, corpusS3([]string{"n1", "n2", "n3", "n4"}, "2", "auto", 1, canaryDev()))
 	}
 	return scs
